@@ -306,7 +306,7 @@ V("C02", "nc-window-not-scaled", "mdtraj/formats/netcdf.py", "        elif strid
 V("C02", "h5-window-not-scaled-again", "mdtraj/formats/hdf5.py", "            # n_frames counts the frames returned, so stride times as many are consumed\n            n_frames *= stride\n\n        total_n_frames = len(self._handle.root.coordinates)",
   "\n        total_n_frames = len(self._handle.root.coordinates)", "C02-R2", "HDF5TrajectoryFile.read")
 V("C02", "mdcrd-skip-loop-off-by-one", "mdtraj/formats/mdcrd.py", "            for j in range(stride - 1):\n                # throw away these frames\n                try:\n                    self._read()",
-  "            for j in range(stride):\n                # throw away these frames\n                try:\n                    self._read()", "C02-R2", "MDCRDTrajectoryFile.read")
+  "            for j in range(stride):\n                # throw away these frames\n                try:\n                    self._read()", "C02-R8", "MDCRDTrajectoryFile.read")
 V("C02", "h5-cursor-advances-by-returned", "mdtraj/formats/hdf5.py", "        self._frame_index += frame_slice.stop - frame_slice.start", "        self._frame_index += len(frames.coordinates)",
   "C02-R3", "HDF5TrajectoryFile.read")
 V("C02", "xyz-time-loses-initial", "mdtraj/formats/xyzfile.py", "        time = (stride * np.arange(len(xyz))) + initial", "        time = stride * np.arange(len(xyz))", "C02-R4", "XYZTrajectoryFile.read_as_traj")
@@ -346,6 +346,12 @@ V("C02", "xyz-empty-exit-full-topology", "mdtraj/formats/xyzfile.py", "        i
 V("C02", "gro-time-record-dropped", "mdtraj/formats/gro.py", "        traj = Trajectory(xyz=coordinates, topology=topology, time=time)", "        traj = Trajectory(xyz=coordinates, topology=topology)", "C02-R4", "GroTrajectoryFile.read_as_traj")
 V("C02", "h5-subset-of-subset-guard-truthy", "mdtraj/formats/hdf5.py", "        topology = self.topology\n        if atom_indices is not None:\n            topology = topology.subset(atom_indices)\n\n        data = self.read(",
   "        topology = self.topology\n        if atom_indices is not None and stride is None:\n            topology = topology.subset(atom_indices)\n\n        data = self.read(", "C02-R5", "HDF5TrajectoryFile.read_as_traj")
+# C02-R8: text readers evaluated on a model file
+V("C02", "twin-xyz-skip-before-keep", "mdtraj/formats/xyzfile.py", None, None, None, edits=[("            all_coords.append(frame_coords)\n\n            for j in range(stride - 1):", "            for j in range(stride - 1):"), ("                except _EOF:\n                    break\n\n        all_coords = np.array(all_coords)", "                except _EOF:\n                    break\n            all_coords.append(frame_coords)\n\n        all_coords = np.array(all_coords)")])
+V("C02", "xyz-selection-sorted", "mdtraj/formats/xyzfile.py", "                    frame_coords = frame_coords[atom_indices, :]", "                    frame_coords = frame_coords[sorted(atom_indices), :]", "C02-R8", "XYZTrajectoryFile.read")
+V("C02", "twin-xyz-read-while-loop", "mdtraj/formats/xyzfile.py", "            for j in range(stride - 1):\n                # throw away these frames\n                try:\n                    self._read()\n                except _EOF:\n                    break",
+  "            skipped = 0\n            while skipped < stride - 1:\n                try:\n                    self._read()\n                except _EOF:\n                    break\n                skipped += 1", None)
+V("C02", "gro-time-not-strided", "mdtraj/formats/gro.py", "            time = time[::stride]", "            time = time[: len(coordinates[::stride])]", "C02-R8", "GroTrajectoryFile.read")
 V("C02", "twin-time-commuted", "mdtraj/formats/xyzfile.py", "        time = (stride * np.arange(len(xyz))) + initial", "        time = initial + (np.arange(len(xyz)) * stride)", None)
 V("C02", "twin-positional-args", "mdtraj/formats/netcdf.py", """        xyz, time, cell_lengths, cell_angles = self.read(
             n_frames=n_frames,
@@ -1087,7 +1093,7 @@ V("C05", "twin-triclinic-locals-renamed", GEOC, '            fvec4 r12 = pos2-po
 _MDCRD_SKIP = '    def _skip(self):\n        "Advance over a single frame without converting its numbers"\n        n_lines = %s\n        for i in range(n_lines):\n            if self._fh.readline() == b"":\n                raise _EOF()\n        self._line_counter += n_lines\n        if self._has_box is not False:\n            here = self._fh.tell()\n            if len(self._fh.readline().split()) != 3:\n                if self._has_box is True:\n                    raise OSError("Box information not found in file.")\n                self._fh.seek(here)\n        self._frame_index += 1\n\n    def write(self, xyz, cell_lengths=None):'
 _MDCRD_E1 = ('                # throw away these frames\n                try:\n                    self._read()\n                except _EOF:\n                    break', '                # throw away these frames\n                try:\n                    self._skip()\n                except _EOF:\n                    break')
 V("C02", "twin-mdcrd-skip-by-line-count", "mdtraj/formats/mdcrd.py", None, None, None, edits=[_MDCRD_E1, ("    def write(self, xyz, cell_lengths=None):", _MDCRD_SKIP % "(self._n_atoms * 3 + 9) // 10")])
-V("C02", "mdcrd-skip-line-count-off-by-one", "mdtraj/formats/mdcrd.py", None, None, "C02-R2", edits=[_MDCRD_E1, ("    def write(self, xyz, cell_lengths=None):", _MDCRD_SKIP % "self._n_atoms * 3 // 10 + 1")])
+V("C02", "mdcrd-skip-line-count-off-by-one", "mdtraj/formats/mdcrd.py", None, None, "C02-R8", edits=[_MDCRD_E1, ("    def write(self, xyz, cell_lengths=None):", _MDCRD_SKIP % "self._n_atoms * 3 // 10 + 1")])
 V("C02", "lammps-selection-inside-parser", LMPF, "                frame_coords, frame_lengths, frame_angles = self._read()", "                frame_coords, frame_lengths, frame_angles = self._read(atom_indices)", "C02-R5")
 V("C03", "remove-solvent-returns-self", TRJ, "        return self.atom_slice(atom_indices, inplace=inplace)\n\n    def smooth(", "        if len(atom_indices) == self.n_atoms:\n            return self\n        return self.atom_slice(atom_indices, inplace=inplace)\n\n    def smooth(", "C03-R6")
 V("C03", "twin-remove-solvent-early-copy", TRJ, "        return self.atom_slice(atom_indices, inplace=inplace)\n\n    def smooth(", "        if inplace and len(atom_indices) == self.n_atoms:\n            return self\n        return self.atom_slice(atom_indices, inplace=inplace)\n\n    def smooth(", None)
